@@ -29,6 +29,7 @@ type OblResult struct {
 	obls    []*Obligation
 	failed  *Obligation
 	query   string
+	queryAlt string
 }
 
 // FuncReport is the outcome of verifying one function case.
@@ -71,6 +72,11 @@ func (x *Exec) generate() {
 	var args []Value
 	for _, p := range fn.Params {
 		v := x.freshValue(p.Type(), "p."+p.Name(), True, st)
+		if pt, ok := p.Type().Underlying().(*types.Pointer); ok {
+			if _, isStruct := pt.Elem().Underlying().(*types.Struct); !isStruct {
+				v = LocV{Kind: "box", Obj: v.(Scalar).T, Ty: p.Type()}
+			}
+		}
 		args = append(args, v)
 		x.params[p.Name()] = v
 	}
@@ -174,37 +180,35 @@ func (x *Exec) frameObligations(out *State, rg *Term, penv *SpecEnv) {
 	}
 	for _, k := range order {
 		mts := byKey[k]
-		// all components with this base key
-		for key, cur := range out.Heap {
-			if key != k && !strings.HasPrefix(key, k+".") {
+		for _, w := range out.Writes {
+			if w.key != k && !strings.HasPrefix(w.key, k+".") {
 				continue
 			}
-			init := x.heap(x.Entry, key, cur.S)
-			if init == cur {
+			if w.fresh {
 				continue
 			}
-			o := x.VC.Fresh("frame.o", IntS)
 			var goal *Term
-			if mts[0].kind == "range" {
-				kk := x.VC.Fresh("frame.k", bv64)
-				var allowed []*Term
-				for _, mt := range mts {
-					lo := BVBin("bvadd", mt.sl.Off, mt.lo)
-					hi := BVBin("bvadd", mt.sl.Off, mt.hi)
-					allowed = append(allowed, And(Eq(o, mt.sl.Arr), BVCmp("bvule", lo, kk), BVCmp("bvult", kk, hi)))
-				}
-				// only pre-existing arrays matter
-				goal = Implies(And(IntCmp("<", o, x.Entry.Next), Not(Or(allowed...))), Eq(Select(Select(cur, o), kk), Select(Select(init, o), kk)))
+			if w.obj == nil {
+				goal = False
 			} else {
 				var allowed []*Term
 				for _, mt := range mts {
-					if mt.loc.Obj != nil {
-						allowed = append(allowed, Eq(o, mt.loc.Obj))
+					if mt.kind == "range" {
+						if w.lo == nil {
+							continue
+						}
+						lo := BVBin("bvadd", mt.sl.Off, mt.lo)
+						hi := BVBin("bvadd", mt.sl.Off, mt.hi)
+						allowed = append(allowed, And(Eq(w.obj, mt.sl.Arr), BVCmp("bvule", lo, w.lo), BVCmp("bvule", w.lo, w.hi), BVCmp("bvule", w.hi, hi)))
+					} else if mt.loc.Obj != nil {
+						allowed = append(allowed, Eq(w.obj, mt.loc.Obj))
 					}
 				}
-				goal = Implies(And(IntCmp("<", o, x.Entry.Next), Not(Or(allowed...))), Eq(Select(cur, o), Select(init, o)))
+				// objects allocated by this activation are invisible to the caller
+				allowed = append(allowed, IntCmp(">=", w.obj, x.Entry.Next))
+				goal = Or(allowed...)
 			}
-			x.Oblige("frame", key, "", x.Top.Pos(), rg, goal, nil)
+			x.Oblige("frame", w.key, "", x.Top.Pos(), And(rg, w.guard), goal, nil)
 		}
 	}
 }
@@ -283,9 +287,64 @@ func SolveAll(xs []*Exec, opt Options) []*FuncReport {
 				var q *Query
 				if trivial {
 					sr = SolverResult{Status: "unsat", Solver: "trivial"}
-				} else {
+				} else if o.MustSat {
 					q = o.vc.BuildQuery(o, nil)
-					sr = Solve(q.Text, opt.Timeout)
+					sr = SolveQ(q, opt.Timeout)
+				} else {
+					// split the goal into conjuncts; scalar pieces first try a light query
+					var total int64
+					sr = SolverResult{Status: "unsat", Solver: "split"}
+					for _, piece := range SplitGoal(o.Goal, 64) {
+						if piece == True {
+							continue
+						}
+						var pr SolverResult
+						solved := false
+						scalar := o.vc.ScalarGoal(o, piece)
+						type attempt struct {
+							light bool
+							depth int
+							frac  int // timeout divisor
+						}
+						var plan []attempt
+						if scalar {
+							plan = []attempt{{true, 2, 4}, {true, 0, 2}, {false, 0, 1}}
+						} else {
+							plan = []attempt{{false, 2, 4}, {false, 4, 2}, {false, 0, 1}}
+						}
+						for _, at := range plan {
+							tb := time.Now()
+							q = o.vc.BuildQueryRel(o, piece, nil, at.light, at.depth)
+							buildMs := time.Since(tb).Milliseconds()
+							pr = SolveQ(q, opt.Timeout/time.Duration(at.frac))
+							if os.Getenv("GOVC_TRACE") != "" {
+								fmt.Fprintf(os.Stderr, "TIME build=%dms solve=%dms light=%v %s alt=%v why=%s\n", buildMs, pr.Ms, at.light, pr.Solver, q.Alt != nil, q.AltWhy)
+							}
+							total += pr.Ms
+							if pr.Status == "unsat" {
+								solved = true
+								break
+							}
+							if d := os.Getenv("GOVC_LIGHTDUMP"); d != "" {
+								os.MkdirAll(d, 0o755)
+								os.WriteFile(fmt.Sprintf("%s/%s.l%v.d%d.smt2", d, sanitize(o.ID), at.light, at.depth), []byte(q.Text+"(check-sat)\n"), 0o644)
+							}
+						}
+						_ = solved
+						if os.Getenv("GOVC_TRACE") != "" {
+							txt := TermText(piece)
+							if len(txt) > 300 {
+								txt = txt[:300]
+							}
+							fmt.Fprintf(os.Stderr, "TRACE %s piece %s %dms asserts=%d inst=%d :: %s\n", o.ID, pr.Status, pr.Ms, q.NAsserts, q.NInst, txt)
+						}
+						if pr.Status != "unsat" {
+							sr = pr
+							break
+						}
+						sr.Solver = pr.Solver
+					}
+					sr.Ms = total
 				}
 				mu.Lock()
 				r := j.res
@@ -304,6 +363,14 @@ func SolveAll(xs []*Exec, opt Options) []*FuncReport {
 					if sr.Status == "sat" || sr.Status == "unsat" {
 						bad = "failed"
 					}
+					if o.MustSat && bad == "unknown" {
+						// vacuity/reachability could not be decided within the budget: not a failure
+						if r.Detail == "" {
+							r.Detail = "undecided"
+						}
+						mu.Unlock()
+						continue
+					}
 					if r.Status == "discharged" || (r.Status == "unknown" && bad == "failed") {
 						r.Status = bad
 						r.failed = o
@@ -311,6 +378,9 @@ func SolveAll(xs []*Exec, opt Options) []*FuncReport {
 						r.Detail = sr.Status
 						if q != nil {
 							r.query = q.Text
+							if q.Alt != nil {
+								r.queryAlt = q.Alt.Text
+							}
 						}
 					}
 				}
@@ -343,4 +413,7 @@ func DumpFailed(r *OblResult, dir string) {
 		name = name[:120]
 	}
 	os.WriteFile(dir+"/"+name+".smt2", []byte(r.query+"(check-sat)\n(get-model)\n"), 0o644)
+	if r.queryAlt != "" {
+		os.WriteFile(dir+"/"+name+".int.smt2", []byte(r.queryAlt+"(check-sat)\n"), 0o644)
+	}
 }
